@@ -81,6 +81,26 @@ theorem generated_set_memory_eq_hand (avail cores ranks itemsize cols num den : 
           = ((cores * ranks * (itemsize * cols) * num : Nat) : Int) by push_cast; simp [Int.mul_assoc],
         ← Int.ofNat_fdiv]
 
+/-- monotonicity, stated on the generated definition: more available memory never gives a smaller batch -/
+theorem generated_monotone (avail avail' cores ranks itemsize cols num den : Nat) (mb : Option Int)
+    (hden : 0 < den) (hmul : den ≤ num) (hw : 0 < cores * ranks) (hr : 0 < itemsize * cols) (h : avail ≤ avail') :
+    ∃ p p' : Nat, set_memory (avail : Int) mb ⟨(num : Int), (den : Int)⟩ cores ranks itemsize cols = .ok (p : Int) ∧
+      set_memory (avail' : Int) mb ⟨(num : Int), (den : Int)⟩ cores ranks itemsize cols = .ok (p' : Int) ∧ p ≤ p' := by
+  refine ⟨_, _, generated_set_memory_eq_hand avail cores ranks itemsize cols num den mb hden hmul hw hr,
+    generated_set_memory_eq_hand avail' cores ranks itemsize cols num den mb hden hmul hw hr, ?_⟩
+  apply monotone
+  cases mb with
+  | none => simpa [granted] using h
+  | some m => simp only [Option.map, granted]; omega
+
+/-- a budget that admits one row gives a batch of at least one position, on the generated definition -/
+theorem generated_admits_one_row (avail cores ranks itemsize cols num den : Nat) (mb : Option Int)
+    (hden : 0 < den) (hmul : den ≤ num) (hw : 0 < cores * ranks) (hr : 0 < itemsize * cols)
+    (h : cores * ranks * (itemsize * cols) * num ≤ granted avail (mb.map Int.natAbs) * den) :
+    ∃ p : Nat, set_memory (avail : Int) mb ⟨(num : Int), (den : Int)⟩ cores ranks itemsize cols = .ok (p : Int) ∧ 1 ≤ p :=
+  ⟨_, generated_set_memory_eq_hand avail cores ranks itemsize cols num den mb hden hmul hw hr,
+    admits_one_row _ _ _ _ _ (Nat.mul_pos (Nat.mul_pos hw hr) (by omega)) h⟩
+
 /-- a multiplier of absolute value below 1 is refused before anything is computed -/
 theorem set_memory_small_multiplier_raises (avail cores ranks itemsize cols : Int) (mb : Option Int) (n : Int)
     (d : Nat) (h : n.natAbs < d) :
